@@ -167,6 +167,15 @@ def triggers(spec, stmt, store):
             return has_and(t[1])
         return False
 
+    def has_abs(t):
+        if t[0] == "b":
+            return has_abs(t[2]) or has_abs(t[3])
+        if t[0] == "abs":
+            return True
+        if t[0] == "neg":
+            return has_abs(t[1])
+        return False
+
     def is_sum(t):
         """64-bit integer register +/- constant is built as a `Sum`"""
         return (t[0] == "b" and t[1] in "+-" and (
@@ -193,6 +202,9 @@ def triggers(spec, stmt, store):
             if t[1] == ">>" and has_and(t[2]) and not dsl_signed(t[2]) \
                     and any(v < 0 for v in vals(t[2])):
                 found.append("and-result-negative-shifted-logically")
+            if t[1] == ">>" and has_abs(t[2]) and not dsl_signed(t[2]) \
+                    and any(v < 0 for v in vals(t[2])):
+                found.append("abs-result-negative-shifted-logically")
             walk(t[2])
             walk(t[3])
         elif k in ("neg", "abs"):
@@ -206,7 +218,8 @@ PRIORITY = ["signed-div-mod-negative-operand",
             "sw-register-negative-in-64bit",
             "w-register-dirty-upper-bits",
             "sum-minus-expression-adds",
-            "and-result-negative-shifted-logically"]
+            "and-result-negative-shifted-logically",
+            "abs-result-negative-shifted-logically"]
 
 
 def stmt_by_path(spec, path):
